@@ -144,6 +144,7 @@ func vtC03Exec(in []int64) []int64 {
 	pods := map[int64]*corev1.Pod{}
 	var node *corev1.Node
 	nodeRV := 0
+	podRV := 0
 	ctx := context.TODO()
 	obs := make([]int64, 0, 64*n)
 
@@ -181,6 +182,22 @@ func vtC03Exec(in []int64) []int64 {
 			pl.OnQuotaUpdate(q.obj, nq)
 			q.obj = nq
 			q.args = append([]int64(nil), a...)
+		case 12: // PodRelabel: an update event that only flips the preemptible label
+			old, ok := pods[a[0]]
+			if !ok {
+				status = -1
+				break
+			}
+			np := old.DeepCopy()
+			podRV++
+			np.ResourceVersion = fmt.Sprint(podRV)
+			if np.Labels[extension.LabelPreemptible] == "false" {
+				delete(np.Labels, extension.LabelPreemptible)
+			} else {
+				np.Labels[extension.LabelPreemptible] = "false"
+			}
+			pl.OnPodUpdate(old, np)
+			pods[a[0]] = np
 		case 11: // FlipLend: the allow-lent-resource label changes, nothing else (a quota META change)
 			q, ok := quotas[a[0]]
 			if !ok {
@@ -596,6 +613,8 @@ func vtC03Gen(r *rand.Rand, i int) (string, []int64) {
 				continue
 			}
 			emit(11, qs[r.Intn(len(qs))].id)
+		case c < 98: // a pod's preemptible label flips
+			emit(12, pickPod())
 		default:
 			addQuota()
 		}
